@@ -89,7 +89,7 @@ S_OFF = st.sampled_from([-1.0, -0.25, 0.0, 0.25, 1.0])
 S_KIND = st.sampled_from(["tracks", "network"])
 S_MARGIN = st.sampled_from(MARGINS)
 S_NPATH = st.sampled_from([2, 2, 2, 3, 4])
-S_DFAM = st.sampled_from(["zero", "lattice", "float", "small-side", "big-side", "reach", "reach"])
+S_DFAM = st.sampled_from(["lattice", "float", "small-side", "big-side", "reach", "reach", "zero"])
 S_HALF = st.sampled_from([0.0, 0.0, 0.5])
 S_REACH = st.sampled_from([1.0, 1.001, 1.25])
 
@@ -514,7 +514,9 @@ def body_nbh(case):
                 # would the omitted feature have been found with the radius measured in the smaller cell side?
                 again = si.neighborhood(ENUCoords(x, y, 0.0), unit=u_small)
                 if again is not None and k in again:
-                    key = "ground-units-from-larger-cell-side"
+                    key = "ground-units-too-few"
+                    if nonsq and u == math.floor(d / max(si.dX, si.dY) + 1):
+                        key = "ground-units-from-larger-cell-side"
             raise Violation(key, "feature %d is at distance %r <= d=%r of %r but neighborhood(unit="
                             "groundDistanceToUnits(d)=%r) = %s; cells are %r x %r, %r units would be needed"
                             % (k, dist, d, (x, y), u, sorted(got), si.dX, si.dY, u_small))
@@ -551,10 +553,10 @@ RULE = ("Every case builds one index (TrackCollection or Network, 1-4 polylines 
         "Distinct = hash of the case.")
 
 SUBCHECKS = [
-    SubCheck("point", body_point, strategy=_case("point"), quick=5000, thorough=160000, qshards=5,
+    SubCheck("point", body_point, strategy=_case("point"), quick=5000, thorough=80000, qshards=5,
              rule="request(coord) must list every feature crossing the (shrunk) cell of the point"),
-    SubCheck("path", body_path, strategy=_case("path"), quick=3500, thorough=110000, qshards=5,
+    SubCheck("path", body_path, strategy=_case("path"), quick=3500, thorough=56000, qshards=5,
              rule="request([c1,c2]) / request(track) must list everything registered in, or crossing, each crossed cell"),
-    SubCheck("neighbourhood", body_nbh, strategy=_case("nbh"), quick=5000, thorough=160000, qshards=5,
+    SubCheck("neighbourhood", body_nbh, strategy=_case("nbh"), quick=5000, thorough=80000, qshards=5,
              rule="neighborhood(q, unit=groundDistanceToUnits(d)) must list every feature within d of q"),
 ]
